@@ -13,6 +13,11 @@ implementation did, independently of the model):
          environ['mapproxy.authorize'] callback and a recording upstream: status, callback arguments, render list
          (LimitedLayer wrappers), global coverage, upstream log and response pixels against Auth.wms_map,
          wms_featureinfo, tile_render, wmts_featureinfo, merge_px, tile_masked_px.
+  caps   WMS GetCapabilities with a partial result against Auth.wms_capabilities (FilteredRootLayer).
+  utm    tile services on a UTM grid with a limit given in EPSG:4326 (curved tile edges): decisions against
+         Auth.tile_render, every second pixel against its true latitude (pyproj).
+  Configurations also vary services.wms.bbox_srs extents, on_source_errors: raise, sources with their own coverage
+  (clip true / false); requests include deep zoom (0.2 m per pixel) with geometries thousands of km wide.
   The geometric predicates the model takes as inputs (point in geometry, tile contains / intersects, pixel
   outside) are computed by the harness from the generated shape with its own exact arithmetic, never read back
   from the implementation.
